@@ -336,7 +336,7 @@ fn byron_variant(r: &mut Rng, p: &(Vec<u8>, Option<Vec<u8>>, Option<u64>, u64), 
         _ => out.extend(cbytes(&inner)),
     }
     let crc = crc32(&inner) as u64;
-    match which { 27 => out.extend(head(0, crc ^ (1 << r.below(32)))), 28 => out.extend(head_w(0, crc, 8)), 29 => out.extend(head(1, crc)), 30 => {}, _ => out.extend(head(0, crc)) }
+    match which { 27 => out.extend(head(0, crc ^ (1 << r.below(32)))), 28 => out.extend(head_w(0, crc, 8)), 29 => out.extend(head(1, crc)), 30 => {}, 33 => out.extend(head(0, crc + (1u64 << 32))), _ => out.extend(head(0, crc)) }
     if which == 31 { let n = r.range(1, 3) as usize; out.extend(r.bytes(n)); }                   // bytes after the address
     out
 }
@@ -415,7 +415,7 @@ fn gen(dir: &str) {
     }
     // 4. Byron: canonical bytes, every non-canonical / broken variant, header 0x8_ with other low nibbles
     let n_byr = if thorough { 40 } else { 8 };
-    for _ in 0..n_byr { for which in 0..=32u64 {
+    for _ in 0..n_byr { for which in 0..=34u64 {
         let p = rand_byron_parts(&mut r);
         let v = byron_variant(&mut r, &p, which);
         emit(&mut out, format!("dec {}", hex::encode(&v)));
